@@ -157,4 +157,6 @@ def spec_text(f, tape, bp=F.default_bound_printer, aliases=True, minimal=True, e
         text = 'out = ' + body
     if tape.take(3) != 0:
         text += ';'
+        # white space (a line break at the end of a file) or a comment after the final ';'
+        text += ('', '', '', '\n', ' ', '\t\n', ' // end', ' /* end */', '\n\n')[tape.take(9)]
     return text
